@@ -14,11 +14,11 @@ from ..core.framework import Ctx, b2s
 
 SPEC = {
     "modules": ["HC.Props.C02"],
-    "extracted": ["Guards", "Consts", "ReqGlue", "Atomic", "Excepts", "H2Init"],
+    "extracted": ["Guards", "Consts", "ReqGlue", "Atomic", "Excepts", "H2Init", "ConnGuards"],
     "technique": "Lean 4 transducer theorem (events handed to the protocol = specification of the app's messages, for every status/header list/chunking, by induction over chunks) + suppress_body and trailers gates + head-composition laws; HTTP/2 END TO END: a contents-carrying refinement of the C08/C09 send-path model (HC/Proto/H2Wire.lean: frames on the wire, FIFO buffer contents, pending trailers) with a per-stream invariant over every schedule, composed with the HTTPStream model and C09's delivery-at-quiescence theorem (h2_response_delivered, h2_response_end_to_end); tied by end-to-end runs on both workers parsed by independent h11/h2 clients, by the composed model's prediction for every HTTP/2 case, and by frame-by-frame trace acceptance of the contents model against the real H2Protocol (raw-frame ledger)",
-    "level_text": "Proved in Lean for every final status, every header list that validates and every chunking (any number of chunks, empty ones included): the protocol layer is given exactly one response head with the application's headers in order, the non-empty chunks in order (none when HEAD / 1xx / 204 / 304 — the extracted suppress_body, characterised), then end-of-body, one access record and stream-closed; trailers only on HTTP/2+ with te: trailers; the HTTP/1 head is app headers ++ server headers (date/server/alt-svc only) ++ connection: close at the request maximum; the HTTP/2 head is :status ++ app ++ server headers; a WINDOW_UPDATE / INITIAL_WINDOW_SIZE change unblocks every buffered stream it concerns (tests extracted from _window_updated: connection-level = all); HTTP/2 trailers are handed to the protocol iff HTTP/2+ and te: trailers, kept until the body is out and sent as the one frame that ends the stream (exactly one END_STREAM-carrying h2 call, extracted from _end_stream).  An h2c upgrade request always gets stream 1 to be answered on: H2Protocol.initiate (test extracted) takes h2's upgrade entry point for every HTTP2-Settings value, the empty string of an empty or absent header included (h2c_response_has_a_stream).  End-to-end on every run: scripted applications (status x headers x chunking incl. chunks larger than the 16 KiB frame and 64 KiB window) on HTTP/1.0, 1.1 and 2, both workers; HTTP/2 negotiated by ALPN, by prior knowledge on a cleartext connection and by an HTTP/1.1 Upgrade: h2c request (the client's real HTTP2-Settings, an empty value, no header; the response travels on stream 1, further streams behind it); HTTP/2 client shapes: stream windows smaller / larger than the connection window, frame size, 1-3 concurrent streams, seven acknowledgement styles (automatic, paused, late, explicit connection/stream WINDOW_UPDATEs in either order, connection only); trailers with and without te: trailers; independent h11/h2 client parsers recover status, headers, body and end-of-message, compared with the monitor and with the Lean-predicted view.  HTTP/2 END TO END (theorems h2_response_delivered / h2_response_end_to_end, with wire_refines and fifo): for every final status, header list that validates, chunking (any number of chunks, empty ones included, any sizes - beyond the frame size and the windows) and EVERY schedule of the send path (any interleaving of the stream events of any number of streams with WINDOW_UPDATE / SETTINGS / PRIORITY frames, the send task's picks - whatever unblocked stream the priority tree hands out -, its suspensions inside _send_data and the wake-ups of waiting senders; the only hypothesis on schedules is C09's: the send task sleeps only at DeadlockError) that ends with the send task quiescent, the connection open, the stream not reset and credit on the stream and the connection: the frames written on that stream are EXACTLY one HEADERS frame :status ++ validated application headers ++ server headers, then DATA frames whose payloads concatenate to the concatenation of the chunks (nothing when the body must be suppressed), then exactly one frame ending the stream - the empty DATA frame with END_STREAM, or the HEADERS frame carrying all pending trailers and END_STREAM - and nothing else.  The contents model (what bytes the byte counters of the C08/C09 model stand for: push extends the buffer at the back, pop takes from the front, close() empties it; _end_stream's test extracted) is proved to refine the C08/C09 model step by step, and is tied to the code twice: (1) frame by frame against the real H2Protocol driven directly with real HTTPStreams, real send task, h2 and priority (the reconstructed op list of every run - the same one C08/C09 replay - is replayed with the applications' bytes, Response and Trailers events at their positions; the frames it writes per stream - kinds, sizes, payload, response head, trailers - must equal the raw-frame ledger of the server's byte stream and what the independent client decoded; where the theorem's hypotheses hold at the end of a run its conclusion is evaluated on the implementation's wire), (2) end to end: for every HTTP/2 case the composition itself (HTTPStream model -> stream events -> a pseudo-random schedule of the send path with the client's windows and frame size, run to quiescence) must end as the theorem says and predict the status, headers, body, end-of-stream and trailers the independent h2 client saw on the real TCPServer.",
+    "level_text": "Proved in Lean for every final status, every header list that validates and every chunking (any number of chunks, empty ones included): the protocol layer is given exactly one response head with the application's headers in order, the non-empty chunks in order (none when HEAD / 1xx / 204 / 304 — the extracted suppress_body, characterised), then end-of-body, one access record and stream-closed; trailers only on HTTP/2+ with te: trailers; the HTTP/1 head is app headers ++ server headers (date/server/alt-svc only) ++ connection: close at the request maximum; the HTTP/2 head is :status ++ app ++ server headers; a WINDOW_UPDATE / INITIAL_WINDOW_SIZE change unblocks every buffered stream it concerns (tests extracted from _window_updated: connection-level = all); HTTP/2 trailers are handed to the protocol iff HTTP/2+ and te: trailers, kept until the body is out and sent as the one frame that ends the stream (exactly one END_STREAM-carrying h2 call, extracted from _end_stream).  An h2c upgrade request always gets stream 1 to be answered on: H2Protocol.initiate (test extracted) takes h2's upgrade entry point for every HTTP2-Settings value, the empty string of an empty or absent header included (h2c_response_has_a_stream).  End-to-end on every run: scripted applications (status x headers x chunking incl. chunks larger than the 16 KiB frame and 64 KiB window) on HTTP/1.0, 1.1 and 2, both workers; HTTP/2 negotiated by ALPN, by prior knowledge on a cleartext connection and by an HTTP/1.1 Upgrade: h2c request (the client's real HTTP2-Settings, an empty value, no header; the response travels on stream 1, further streams behind it); HTTP/2 client shapes: stream windows smaller / larger than the connection window, frame size, 1-3 concurrent streams, seven acknowledgement styles (automatic, paused, late, explicit connection/stream WINDOW_UPDATEs in either order, connection only); trailers with and without te: trailers; independent h11/h2 client parsers recover status, headers, body and end-of-message, compared with the monitor and with the Lean-predicted view.  HTTP/2 END TO END (theorems h2_response_delivered / h2_response_end_to_end, with wire_refines and fifo): for every final status, header list that validates, chunking (any number of chunks, empty ones included, any sizes - beyond the frame size and the windows) and EVERY schedule of the send path (any interleaving of the stream events of any number of streams with WINDOW_UPDATE / SETTINGS / PRIORITY frames, the send task's picks - whatever unblocked stream the priority tree hands out -, its suspensions inside _send_data and the wake-ups of waiting senders; the only hypothesis on schedules is C09's: the send task sleeps only at DeadlockError) that ends with the send task quiescent, the connection open, the stream not reset and credit on the stream and the connection: the frames written on that stream are EXACTLY one HEADERS frame :status ++ validated application headers ++ server headers, then DATA frames whose payloads concatenate to the concatenation of the chunks (nothing when the body must be suppressed), then exactly one frame ending the stream - the empty DATA frame with END_STREAM, or the HEADERS frame carrying all pending trailers and END_STREAM - and nothing else.  The contents model (what bytes the byte counters of the C08/C09 model stand for: push extends the buffer at the back, pop takes from the front, close() empties it; _end_stream's test extracted) is proved to refine the C08/C09 model step by step, and is tied to the code twice: (1) frame by frame against the real H2Protocol driven directly with real HTTPStreams, real send task, h2 and priority (the reconstructed op list of every run - the same one C08/C09 replay - is replayed with the applications' bytes, Response and Trailers events at their positions; the frames it writes per stream - kinds, sizes, payload, response head, trailers - must equal the raw-frame ledger of the server's byte stream and what the independent client decoded; where the theorem's hypotheses hold at the end of a run its conclusion is evaluated on the implementation's wire), (2) end to end: for every HTTP/2 case the composition itself (HTTPStream model -> stream events -> a pseudo-random schedule of the send path with the client's windows and frame size, run to quiescence) must end as the theorem says and predict the status, headers, body, end-of-stream and trailers the independent h2 client saw on the real TCPServer.  EVERY PACE OF THE APPLICATION: responses that take longer than keep_alive_timeout (theorem slow_response_not_timed_out, a corollary of C07's timed connection model and its invariant: in every reachable state with a response in progress the idle timer is not armed, cannot fire, and any amount of time may pass; the place of the prior-knowledge switch's Updated(idle=True) - before the bytes behind the preface - is extracted: prior_switch_reports_idle_before_the_request) are run end to end under keep_alive_timeout 0.3 / 0.7 / 1.1 s (virtual time): applications pausing before the status, between chunks, before the end or the trailers, and clients acknowledging a body larger than their window late, over HTTP/1.0, 1.1, HTTP/2 by ALPN, by prior knowledge (first flight - preface, SETTINGS, HEADERS - in one segment, cut behind the SETTINGS, inside / behind the preface line, inside the HEADERS frame, anywhere) and by h2c upgrade, both workers; the same monitor and model predictions apply.",
     "level_note": "Trusted: Lean kernel; stream model HC/Stream/Http.lean and head functions HC/Proto/Heads.lean (tied by differential runs); the send-path model HC/Proto/H2Send.lean (C08/C09's, tied by their trace acceptance) and its contents wrapper HC/Proto/H2Wire.lean (tied by the frame-by-frame comparison; 'written' means handed to the transport); legal HTTP/1 framing and the HTTP/2 frame encoding / HPACK are h11's and h2's (library behaviour, observed only through the independent client parsers, which raise on violations); h2 drops connection-specific fields from a head it is handed; 1xx as a final status is outside the quantifier; the end-to-end HTTP/2 theorem speaks about a stream that is neither reset nor on a closed connection (the statement's own scope).",
-    "rule": "status x method x header-variant x chunking-class x protocol x pace x worker x (HTTP/2: how it was negotiated - ALPN / prior knowledge / h2c upgrade with real, empty, absent HTTP2-Settings -, initial window, frame size, concurrent streams, trailers); distinct = distinct (protocol, method, status class, header variant, chunking class, pace, worker); non-trivial = a body is sent or must be suppressed",
+    "rule": "status x method x header-variant x chunking-class x protocol x pace x worker x (HTTP/2: how it was negotiated - ALPN / prior knowledge / h2c upgrade with real, empty, absent HTTP2-Settings -, initial window, frame size, concurrent streams, trailers) + slow responses: carrier x opening of the connection (first flight in one segment / cut) x worker x shape (one long pause between chunks, many short pauses, late status, slow client) x keep_alive_timeout, and random response cases with pauses; distinct = distinct (protocol, method, status class, header variant, chunking class, pace, worker); non-trivial = a body is sent or must be suppressed",
     "trusted": ["h11 / h2 client-side parsers as oracles for what a client sees"],
     "partial": ["HTTP/1: framing legality is delegated to h11 (LibM); the theorem stops at the events handed to it.  HTTP/2: the theorem goes down to the frames handed to h2 (kinds, order, payload bytes, header lists); their byte encoding is h2's"],
     "assumptions": ["applications send lower-case header names (ASGI requirement) and a content-length that matches the body when they send one"],
@@ -112,11 +112,12 @@ H2_PACES = ["immediate", "immediate", "late_ack", "paused", "conn_first", "strea
 SLOW_TS = (0.3, 0.7, 1.1)            # keep_alive_timeout values (virtual seconds); off the 0.25 s / 0.5 s grid of the client's actions
 SLOW_PAUSES = (0.41, 0.83, 1.57, 2.9)
 # carrier x opening: HTTP/1.0, HTTP/1.1; HTTP/2 by ALPN / prior knowledge with the first flight (preface, SETTINGS, HEADERS) in one
-# segment, cut behind the client's SETTINGS, cut inside the preface line (18) / at the end of the preface (24) / inside the HEADERS
-# frame (-5 = five bytes before the end); h2c upgrade with the real, an empty, no HTTP2-Settings header
+# segment, cut behind the client's SETTINGS, cut inside the preface's first line (7: h11 sees `PRI * HTTP/2.0` complete only with the
+# second segment, which then carries the rest of the flight) / behind it (18: nothing follows in that read) / at the end of the preface
+# (24) / inside the HEADERS frame (-5 = five bytes before the end); h2c upgrade with the real, an empty, no HTTP2-Settings header
 SLOW_ENTRIES = [("1.0", None, None), ("1.1", None, None),
                 ("2", "alpn", "one"), ("2", "alpn", "settings"),
-                ("2", "prior", "one"), ("2", "prior", "settings"), ("2", "prior", 18), ("2", "prior", 24), ("2", "prior", -5),
+                ("2", "prior", "one"), ("2", "prior", "settings"), ("2", "prior", 7), ("2", "prior", 18), ("2", "prior", 24), ("2", "prior", -5),
                 ("2", "h2c", None), ("2", "h2c_empty", None), ("2", "h2c_absent", None)]
 
 
@@ -133,9 +134,9 @@ def first_cut(blob: bytes, first: Any) -> Optional[int]:
 
 
 def normalise_slow(case: dict) -> None:
-    if case.get("first") == "one":
+    if case.get("first") not in (None, "settings"):
         # the client's larger MAX_FRAME_SIZE must be acknowledged before a larger frame may reach it (see `run_case`): with the
-        # request in the same segment there is no such moment
+        # request in the same segment as the client's SETTINGS there is no such moment
         case["max_frame"] = None
 
 
